@@ -83,6 +83,23 @@ for _n, _f in [("add", lambda a, b: a + b), ("sub", lambda a, b: a - b), ("mul",
                ("where", lambda a, b: torch.where(a > b, a, b * 2)), ("where_method", lambda a, b: a.where(a > 0, b)),
                ("lerp", lambda a, b: torch.lerp(a, b, 0.25)), ("rsub", lambda a, b: 1.5 - a + b), ("radd_scalar", lambda a, b: 2 + a * 3 - b / 4)]:
     spec(_n, 2, shapes=SH2)(_f)
+for _n, _f in [("masked_fill", lambda a, b: a.masked_fill(a > b, 0.25)), ("masked_fill_tensor", lambda a, b: torch.masked_fill(a, b > 0, torch.tensor(-1.5, dtype=a.dtype))),
+               ("addcmul", lambda a, b: torch.addcmul(a, a, b, value=0.5)), ("logaddexp", torch.logaddexp), ("hypot", torch.hypot), ("fmax", torch.fmax), ("fmin", torch.fmin),
+               ("heaviside", lambda a, b: torch.heaviside(a, b * 0 + 0.5)), ("logical_xor", lambda a, b: torch.logical_xor(a > 0, b > 0).to(a)),
+               ("leaky_relu", lambda a, b: torch.nn.functional.leaky_relu(a - b, 0.1)), ("threshold", lambda a, b: torch.nn.functional.threshold(a + b, 0.1, -2.0))]:
+    spec(_n, 2, shapes=SH2)(_f)
+spec("addcdiv", 2, pos=True, shapes=SH2)(lambda a, b: torch.addcdiv(a, a, b, value=2.0))
+spec("xlogy", 2, pos=True, shapes=SH2)(lambda a, b: torch.xlogy(a - a.min(), b))
+for _n, _f in [("expm1", torch.expm1), ("erfc", torch.erfc), ("ndtr", torch.special.ndtr), ("special_erf", torch.special.erf), ("sigmoid", torch.sigmoid),
+               ("tanh", torch.tanh), ("sinh", torch.sinh), ("cosh", torch.cosh), ("exp2", torch.exp2), ("sign", torch.sign), ("sgn", lambda a: a.sgn()),
+               ("relu_", lambda a: (a * 1.0).relu_()), ("masked_fill_", lambda a: (a * 1.0).masked_fill_(a < 0.1, 2.0)),
+               ("addcmul_", lambda a: (a * 1.0).addcmul_(a, a + 1, value=0.5)), ("addcdiv_", lambda a: (a * 1.0).addcdiv_(a, a * a + 1)), ("neg_", lambda a: (a * 1.0).neg_()), ("abs_", lambda a: (a * 1.0).abs_()), ("square_", lambda a: (a * 1.0).square_()),
+               ("hardtanh", lambda a: torch.nn.functional.hardtanh(a, -0.5, 0.5)), ("count_nonzero", lambda a: torch.count_nonzero(a > 0).to(a)),
+               ("aminmax", lambda a: sum(torch.aminmax(a))), ("nansum", lambda a: a.nansum()), ("nanmean", lambda a: a.nanmean())]:
+    spec(_n, 1, shapes=SH1)(_f)
+for _n, _f in [("log2", torch.log2), ("log10", torch.log10), ("sqrt_", lambda a: (a * 1.0).sqrt_()), ("reciprocal_", lambda a: (a * 1.0).reciprocal_()),
+               ("pow_", lambda a: (a * 1.0).pow_(1.5))]:
+    spec(_n, 1, pos=True, shapes=SH1)(_f)
 spec("div", 2, pos=True, shapes=SH2)(lambda a, b: a / b)
 spec("pow_tensor", 2, pos=True, shapes=SH2)(lambda a, b: a.pow(b))
 for _n, _f in [("neg", lambda a: -a), ("abs", torch.abs), ("square", lambda a: a.square()), ("relu", torch.relu), ("exp", torch.exp),
@@ -120,7 +137,18 @@ for _n, _f in [("sum_dim", lambda a: a.sum(dim=-1)), ("sum_dims", lambda a: a.su
                ("setitem_col", lambda a: _set(a.clone(), (slice(None), 0), 0.5)), ("setitem_last", lambda a: _set2(a.clone())),
                ("inplace_sub", lambda a: _isub(a.clone())), ("mse", lambda a: torch.nn.functional.mse_loss(a, a * 0.5)), ("l1", lambda a: torch.nn.functional.l1_loss(a, a * 0.5)),
                ("linear", lambda a: torch.nn.functional.linear(a, torch.tensor([[0.5] * a.shape[-1], [0.25] * a.shape[-1]]), torch.tensor([0.1, -0.2]))),
-               ("median", lambda a: a.median())]:
+               ("median", lambda a: a.median()),
+               ("aminmax_dim", lambda a: torch.aminmax(a, dim=-1).max - a.aminmax(dim=-1, keepdim=False).min), ("hstack", lambda a: torch.hstack([a, a + 1])),
+               ("vstack", lambda a: torch.vstack([a, -a])), ("column_stack", lambda a: torch.column_stack([a[..., 0].reshape(-1), a[..., 1].reshape(-1)])),
+               ("narrow", lambda a: a.narrow(-1, 0, 1)), ("select", lambda a: a.select(-1, 1)), ("roll", lambda a: a.roll(1, -1)), ("tile", lambda a: a.tile((2, 1, 1))[0:3]),
+               ("repeat_interleave", lambda a: a.repeat_interleave(2, dim=-1)), ("unflatten", lambda a: a.reshape(-1).unflatten(0, (-1, 2)) if a.numel() % 2 == 0 else a),
+               ("take_along_dim", lambda a: torch.take_along_dim(a, torch.zeros(a.shape[:-1] + (1,), dtype=torch.long), dim=-1)),
+               ("tril", lambda a: a.tril()), ("triu", lambda a: torch.triu(a, 1)), ("diagonal", lambda a: a.diagonal(dim1=-2, dim2=-1)),
+               ("einsum_ij_j", lambda a: torch.einsum("...j,...j->...", a, a) if False else torch.einsum("ij,ij->i", a.reshape(-1, a.shape[-1]), a.reshape(-1, a.shape[-1]))),
+               ("einsum_outer", lambda a: torch.einsum("i,j->ij", a.reshape(-1)[:2], a.reshape(-1)[:3])), ("einsum_implicit", lambda a: torch.einsum("ij,jk", a.reshape(-1, a.shape[-1]), a.reshape(-1, a.shape[-1]).T)),
+               ("dot", lambda a: torch.dot(a.reshape(-1), a.reshape(-1) + 1)), ("outer", lambda a: torch.outer(a.reshape(-1)[:2], a.reshape(-1)[:3])),
+               ("mv", lambda a: torch.mv(a.reshape(-1, a.shape[-1]), a.reshape(-1)[: a.shape[-1]])), ("bmm", lambda a: torch.bmm(a.reshape(1, -1, a.shape[-1]), a.reshape(1, -1, a.shape[-1]).transpose(1, 2))),
+               ("trapezoid", lambda a: torch.trapezoid(a, dx=0.5, dim=-1))]:
     spec(_n, 1, shapes=D2)(_f)
 spec("conv1d", 1, shapes=[((2, 1, 4),)])(lambda a: torch.nn.functional.conv1d(torch.tensor([[[1.0, 0.5, 0.25]]]), a, padding=3))
 
